@@ -33,8 +33,26 @@ class Spelling(ast.NodeTransformer):
     def __init__(self, methods):
         self.methods = methods
 
+    OPERATOR_BIN = {'add': ast.Add, 'sub': ast.Sub, 'mul': ast.Mult, 'truediv': ast.Div, 'floordiv': ast.FloorDiv, 'mod': ast.Mod, 'pow': ast.Pow, 'matmul': ast.MatMult}
+    OPERATOR_CMP = {'eq': ast.Eq, 'ne': ast.NotEq, 'lt': ast.Lt, 'le': ast.LtE, 'gt': ast.Gt, 'ge': ast.GtE, 'is_': ast.Is, 'is_not': ast.IsNot}
+
     def visit_Call(self, node):
         self.generic_visit(node)
+        # operator.add(a, b) -> a + b ; operator.neg(a) -> -a ; operator.getitem(a, i) -> a[i] ; operator.not_(a) -> not a
+        f0 = node.func
+        if isinstance(f0, ast.Attribute) and isinstance(f0.value, ast.Name) and f0.value.id in ('operator', '_operator', 'op') and not node.keywords \
+                and not any(isinstance(a, ast.Starred) for a in node.args) and f0.value.id in getattr(self, 'operator_aliases', ('operator',)):
+            nm = f0.attr
+            if nm in self.OPERATOR_BIN and len(node.args) == 2:
+                return ast.copy_location(ast.BinOp(left=node.args[0], op=self.OPERATOR_BIN[nm](), right=node.args[1]), node)
+            if nm in self.OPERATOR_CMP and len(node.args) == 2:
+                return ast.copy_location(ast.Compare(left=node.args[0], ops=[self.OPERATOR_CMP[nm]()], comparators=[node.args[1]]), node)
+            if nm == 'neg' and len(node.args) == 1:
+                return ast.copy_location(ast.UnaryOp(op=ast.USub(), operand=node.args[0]), node)
+            if nm == 'not_' and len(node.args) == 1:
+                return ast.copy_location(ast.UnaryOp(op=ast.Not(), operand=node.args[0]), node)
+            if nm == 'getitem' and len(node.args) == 2:
+                return ast.copy_location(ast.Subscript(value=node.args[0], slice=node.args[1], ctx=ast.Load()), node)
         n = _np_name(node.func)
         if n in UFUNC_BIN and len(node.args) == 2 and not node.keywords and not any(isinstance(a, ast.Starred) for a in node.args):
             return ast.copy_location(ast.BinOp(left=node.args[0], op=UFUNC_BIN[n](), right=node.args[1]), node)
@@ -141,7 +159,10 @@ def _simple_helper(fn, allow_nested=True):
     for n in ast.walk(fn):
         if isinstance(n, (ast.Global, ast.Nonlocal, ast.Yield, ast.YieldFrom)):
             return None
-    if fn.decorator_list and not (len(fn.decorator_list) == 1 and isinstance(fn.decorator_list[0], ast.Name) and fn.decorator_list[0].id == 'staticmethod'):
+    def _memo(d):
+        t = ast.unparse(d.func if isinstance(d, ast.Call) else d)
+        return t.split('.')[-1] in ('lru_cache', 'cache')
+    if fn.decorator_list and not all((isinstance(d, ast.Name) and d.id == 'staticmethod') or _memo(d) for d in fn.decorator_list):
         return None
     extra = (a.vararg.arg if a.vararg else None, a.kwarg.arg if a.kwarg else None, [x.arg for x in a.kwonlyargs], list(a.kw_defaults))
     return [x.arg for x in a.args], body[:-1], body[-1].value, a.defaults, extra
@@ -1337,6 +1358,23 @@ def _drop_dead_helpers(tree, inl):
             fn._sa_inlined_everywhere = True
 
 
+def _split_chained_assignments(tree):
+    """a = b = E  ->  a = E ; b = a        (plain names; E is evaluated once, the targets are bound left to right)"""
+    class T(ast.NodeTransformer):
+        def visit_Assign(self, node):
+            if len(node.targets) > 1 and all(isinstance(t, ast.Name) for t in node.targets) and len({t.id for t in node.targets}) == len(node.targets) \
+                    and not any(isinstance(x, ast.Name) and x.id in {t.id for t in node.targets} for x in ast.walk(node.value)):
+                first = node.targets[0]
+                out = [ast.copy_location(ast.Assign(targets=[first], value=node.value), node)]
+                for t in node.targets[1:]:
+                    out.append(ast.copy_location(ast.Assign(targets=[t], value=ast.Name(id=first.id, ctx=ast.Load())), node))
+                for o in out:
+                    ast.fix_missing_locations(o)
+                return out
+            return node
+    T().visit(tree)
+
+
 def apply_simple_decorators(tree):
     """@d on a function, where d is a module-level function of this module of the shape
 
@@ -1404,6 +1442,8 @@ def apply_simple_decorators(tree):
 def normalize_module(tree, modname):
     from . import lower
     spell = Spelling(methods=modname in KERNEL_MODULES)
+    spell.operator_aliases = tuple(a.asname or a.name for n_ in ast.walk(tree) if isinstance(n_, ast.Import) for a in n_.names if a.name == 'operator')
+    _split_chained_assignments(tree)
     spell.visit(tree)
     apply_simple_decorators(tree)
     inl = Inliner(tree)
